@@ -33,8 +33,16 @@ type SourceControl struct {
 	erroring       *ErroringSource
 	ActiveSource   DataSource
 	isSourceActive bool
-	startStopLock  sync.Mutex // serialises the Start and Stop requests of concurrent clients
 	mapServer      *MapServer
+
+	// requestLock lets one request run at a time, whichever connection it comes from. The requests of
+	// one connection are served one after the other, but every connection has its own goroutine (see
+	// RunRPCServer), and the fields above and below (isSourceActive, ActiveSource, status, ...) are
+	// read and written by the RPC methods on the caller's goroutine: without the lock two clients -
+	// say a control program and a monitoring one that sends SendAllStatus or ReadComment - race on
+	// them. Every exported method holds the lock for its whole duration, including the wait for the
+	// data-handling loop to run a queued request; the loop itself never takes it.
+	requestLock sync.Mutex
 
 	status        ServerStatus
 	clientUpdates chan<- ClientUpdate
@@ -150,6 +158,8 @@ func (s *SourceControl) Multiply(args *FactorArgs, reply *int) error {
 
 // ConfigureTriangleSource configures the source of simulated pulses.
 func (s *SourceControl) ConfigureTriangleSource(args *TriangleSourceConfig, reply *bool) error {
+	s.requestLock.Lock()
+	defer s.requestLock.Unlock()
 	UpdateLogger.Printf("ConfigureTriangleSource: %d chan, rate=%.3f\n", args.Nchan, args.SampleRate)
 	err := s.triangle.Configure(args)
 	s.clientUpdates <- ClientUpdate{"TRIANGLE", args}
@@ -160,6 +170,8 @@ func (s *SourceControl) ConfigureTriangleSource(args *TriangleSourceConfig, repl
 
 // ConfigureSimPulseSource configures the source of simulated pulses.
 func (s *SourceControl) ConfigureSimPulseSource(args *SimPulseSourceConfig, reply *bool) error {
+	s.requestLock.Lock()
+	defer s.requestLock.Unlock()
 	UpdateLogger.Printf("ConfigureSimPulseSource: %d chan, rate=%.3f\n", args.Nchan, args.SampleRate)
 	err := s.simPulses.Configure(args)
 	s.clientUpdates <- ClientUpdate{"SIMPULSE", args}
@@ -170,6 +182,8 @@ func (s *SourceControl) ConfigureSimPulseSource(args *SimPulseSourceConfig, repl
 
 // ConfigureLanceroSource configures the lancero cards.
 func (s *SourceControl) ConfigureLanceroSource(args *LanceroSourceConfig, reply *bool) error {
+	s.requestLock.Lock()
+	defer s.requestLock.Unlock()
 	UpdateLogger.Printf("ConfigureLanceroSource: mask 0x%4.4x  active cards: %v\n", args.FiberMask, args.ActiveCards)
 	err := s.lancero.Configure(args)
 	// Remember any errors for later, when we try to start the source.
@@ -182,6 +196,8 @@ func (s *SourceControl) ConfigureLanceroSource(args *LanceroSourceConfig, reply 
 
 // ConfigureAbacoSource configures the Abaco cards.
 func (s *SourceControl) ConfigureAbacoSource(args *AbacoSourceConfig, reply *bool) error {
+	s.requestLock.Lock()
+	defer s.requestLock.Unlock()
 	UpdateLogger.Printf("ConfigureAbacoSource: \n")
 	err := s.abaco.Configure(args)
 	s.clientUpdates <- ClientUpdate{"ABACO", args}
@@ -192,6 +208,8 @@ func (s *SourceControl) ConfigureAbacoSource(args *AbacoSourceConfig, reply *boo
 
 // ConfigureRoachSource configures the abaco cards.
 func (s *SourceControl) ConfigureRoachSource(args *RoachSourceConfig, reply *bool) error {
+	s.requestLock.Lock()
+	defer s.requestLock.Unlock()
 	UpdateLogger.Printf("ConfigureRoachSource: \n")
 	err := s.roach.Configure(args)
 	s.clientUpdates <- ClientUpdate{"ROACH", args}
@@ -238,6 +256,8 @@ type MixFractionObject struct {
 // But changes to the mix settings need to be kept separate from LanceroSource.distrubuteData,
 // which is part of the data-*production* step, not the data-processing step.
 func (s *SourceControl) ConfigureMixFraction(mfo *MixFractionObject, reply *bool) error {
+	s.requestLock.Lock()
+	defer s.requestLock.Unlock()
 	// The mix requests of a LanceroSource are served by its data-production step, which exists only while
 	// the source runs: without this check a request to a stopped source would wait forever.
 	s.handlePossibleStoppedSource()
@@ -253,6 +273,8 @@ func (s *SourceControl) ConfigureMixFraction(mfo *MixFractionObject, reply *bool
 
 // ConfigureTriggers configures the trigger state for 1 or more channels.
 func (s *SourceControl) ConfigureTriggers(state *FullTriggerState, reply *bool) error {
+	s.requestLock.Lock()
+	defer s.requestLock.Unlock()
 	// The old EdgeMulti* parameters are no longer used in the triggering code,
 	// now being replaced with EMTState
 	// for now we're maintaining backwards compatibility with the old RPC calls
@@ -286,6 +308,8 @@ type ProjectorsBasisObject struct {
 
 // ConfigureProjectorsBasis takes ProjectorsBase64 which must a base64 encoded string with binary data matching that from mat.Dense.MarshalBinary
 func (s *SourceControl) ConfigureProjectorsBasis(pbo *ProjectorsBasisObject, reply *bool) error {
+	s.requestLock.Lock()
+	defer s.requestLock.Unlock()
 	*reply = false
 	projectorsBytes, err := base64.StdEncoding.DecodeString(pbo.ProjectorsBase64)
 	if err != nil {
@@ -322,6 +346,8 @@ type SizeObject struct {
 
 // ConfigurePulseLengths is the RPC-callable service to change pulse record sizes.
 func (s *SourceControl) ConfigurePulseLengths(sizes SizeObject, reply *bool) error {
+	s.requestLock.Lock()
+	defer s.requestLock.Unlock()
 	*reply = false // handle the case that sizes fails the validation tests and we return early
 	s.handlePossibleStoppedSource()
 	if !s.isSourceActive {
@@ -355,11 +381,11 @@ func (s *SourceControl) ConfigurePulseLengths(sizes SizeObject, reply *bool) err
 // Start will identify the source given by sourceName and Sample then Start it.
 func (s *SourceControl) Start(sourceName *string, reply *bool) error {
 	*reply = false
-	// One Start or Stop at a time: each RPC request runs on its own goroutine, and a Start slipping
-	// in while another client's Stop is still waiting for the run to end would reuse the source's
-	// wait group under that waiter (or meet a second Stop while the source is still Starting).
-	s.startStopLock.Lock()
-	defer s.startStopLock.Unlock()
+	// (One request at a time also means one Start or Stop at a time: a Start slipping in while
+	// another client's Stop is still waiting for the run to end would reuse the source's wait group
+	// under that waiter, or meet a second Stop while the source is still Starting.)
+	s.requestLock.Lock()
+	defer s.requestLock.Unlock()
 	if s.isSourceActive {
 		return fmt.Errorf("already have active source, do not start")
 	}
@@ -415,8 +441,8 @@ func (s *SourceControl) Start(sourceName *string, reply *bool) error {
 
 // Stop stops the running data source, if any
 func (s *SourceControl) Stop(dummy *string, reply *bool) error {
-	s.startStopLock.Lock()
-	defer s.startStopLock.Unlock()
+	s.requestLock.Lock()
+	defer s.requestLock.Unlock()
 	if !s.isSourceActive {
 		return fmt.Errorf("no source is active")
 	}
@@ -448,11 +474,16 @@ func (s *SourceControl) handlePossibleStoppedSource() {
 // WaitForStopTestingOnly will block until the running data source is finished and
 // thus sets s.isSourceActive to false
 func (s *SourceControl) WaitForStopTestingOnly(dummy *string, reply *bool) error {
-	for s.isSourceActive {
+	for {
+		s.requestLock.Lock()
 		s.handlePossibleStoppedSource()
+		active := s.isSourceActive
+		s.requestLock.Unlock()
+		if !active {
+			return nil
+		}
 		time.Sleep(1 * time.Millisecond)
 	}
-	return nil
 }
 
 // WriteControlConfig object to control start/stop/pause of data writing
@@ -477,8 +508,10 @@ func (m mapError) Error() string {
 
 // WriteControl requests start/stop/pause/unpause data writing
 func (s *SourceControl) WriteControl(config *WriteControlConfig, reply *bool) error {
+	s.requestLock.Lock()
+	defer s.requestLock.Unlock()
 
-	config.MapInternalOnly = s.mapServer.Map
+	config.MapInternalOnly = s.mapServer.currentMap()
 	f := func() {
 		err := s.ActiveSource.WriteControl(config)
 		// Tell the clients the writing state whether or not the request reports an error: a START or
@@ -510,6 +543,8 @@ type StateLabelConfig struct {
 // SetExperimentStateLabel sets the experiment state label in the _experiment_state file
 // The timestamp is fixed as soon as the RPC command is received
 func (s *SourceControl) SetExperimentStateLabel(config *StateLabelConfig, reply *bool) error {
+	s.requestLock.Lock()
+	defer s.requestLock.Unlock()
 	timestamp := time.Now()
 	if config.Label == "" {
 		err := fmt.Errorf("the state label was an empty string, pass a non-empty string")
@@ -529,6 +564,10 @@ func (s *SourceControl) SetExperimentStateLabel(config *StateLabelConfig, reply 
 		return err
 	}
 	f2 := func() {
+		// (this runs after the method has returned, next to the client's following requests: it is a
+		// request of its own)
+		s.requestLock.Lock()
+		defer s.requestLock.Unlock()
 		err := s.runLaterIfActive(f)
 		if err != nil {
 			// panic here since this error could never be returned
@@ -541,6 +580,8 @@ func (s *SourceControl) SetExperimentStateLabel(config *StateLabelConfig, reply 
 
 // WriteComment writes the comment to comment.txt
 func (s *SourceControl) WriteComment(comment *string, reply *bool) error {
+	s.requestLock.Lock()
+	defer s.requestLock.Unlock()
 	*reply = false
 	if len(*comment) == 0 {
 		return fmt.Errorf("can't write zero-length comment, sourceActive %v, len(*comment) %v",
@@ -580,6 +621,8 @@ func (s *SourceControl) WriteComment(comment *string, reply *bool) error {
 
 // ReadComment reads the contents of comment.txt if it exists, otherwise returns err
 func (s *SourceControl) ReadComment(zero *int, reply *string) error {
+	s.requestLock.Lock()
+	defer s.requestLock.Unlock()
 	if !s.isSourceActive {
 		return fmt.Errorf("cannot read comment with no active source")
 	} else if *zero != 0 {
@@ -610,6 +653,8 @@ const (
 
 // CoupleErrToFB turns on or off coupling of Error -> FB
 func (s *SourceControl) CoupleErrToFB(couple *bool, reply *bool) error {
+	s.requestLock.Lock()
+	defer s.requestLock.Unlock()
 	f := func() {
 		c := NoCoupling
 		if *couple {
@@ -626,6 +671,8 @@ func (s *SourceControl) CoupleErrToFB(couple *bool, reply *bool) error {
 
 // CoupleFBToErr turns on or off coupling of FB -> Error
 func (s *SourceControl) CoupleFBToErr(couple *bool, reply *bool) error {
+	s.requestLock.Lock()
+	defer s.requestLock.Unlock()
 	f := func() {
 		c := NoCoupling
 		if *couple {
@@ -653,6 +700,8 @@ func (s *SourceControl) DeleteGroupTriggerCoupling(gts *GroupTriggerState, reply
 // changeGroupTriggerCoupling passes both RPC requests AddGroupTriggerCoupling and
 // DeleteGroupTriggerCoupling on to the underlying ActiveSource.
 func (s *SourceControl) changeGroupTriggerCoupling(turnon bool, gts *GroupTriggerState, reply *bool) error {
+	s.requestLock.Lock()
+	defer s.requestLock.Unlock()
 	f := func() {
 		err := s.ActiveSource.ChangeGroupTrigger(turnon, gts)
 		state := s.ActiveSource.ComputeGroupTriggerState()
@@ -666,6 +715,8 @@ func (s *SourceControl) changeGroupTriggerCoupling(turnon bool, gts *GroupTrigge
 
 // StopTriggerCoupling turns off all trigger coupling
 func (s *SourceControl) StopTriggerCoupling(dummy *bool, reply *bool) error {
+	s.requestLock.Lock()
+	defer s.requestLock.Unlock()
 	f := func() {
 		err := s.ActiveSource.StopTriggerCoupling()
 		state := s.ActiveSource.ComputeGroupTriggerState()
@@ -755,6 +806,8 @@ func (s *SourceControl) storeChannelGroups() error {
 
 // SendAllStatus causes a broadcast to clients containing all broadcastable status info
 func (s *SourceControl) SendAllStatus(dummy *string, reply *bool) error {
+	s.requestLock.Lock()
+	defer s.requestLock.Unlock()
 	s.broadcastStatus()
 	s.clientUpdates <- ClientUpdate{"SENDALL", 0}
 	return nil
@@ -762,6 +815,8 @@ func (s *SourceControl) SendAllStatus(dummy *string, reply *bool) error {
 
 // StoreRawDataBlock causes a block of raw data to be stored in a temporary file.
 func (s *SourceControl) StoreRawDataBlock(N int, reply *string) error {
+	s.requestLock.Lock()
+	defer s.requestLock.Unlock()
 	if N <= 0 {
 		return fmt.Errorf("StoreRawDataBlock needs a positive number of samples, got %d", N)
 	}
